@@ -154,7 +154,7 @@ func (r *run) guestSlot(l *live, t int, rt byte, slot uint32) string {
 		return "x"
 	}
 	res, err := r.callFn(l, fmt.Sprintf("acc_tcall%d", t), uint64(slot))
-	if err != nil {
+	if err != nil || len(res) != 1 {
 		return "x"
 	}
 	return fmt.Sprint(uint32(res[0]))
@@ -176,7 +176,7 @@ func (r *run) hostSlot(l *live, t int, rt byte, slot uint32) (out string) {
 	}
 	f := table.LookupFunction(l.mod, uint32(t), slot, nil, []api.ValueType{api.ValueTypeI32})
 	res, err := f.Call(r.ctx)
-	if err != nil {
+	if err != nil || len(res) != 1 {
 		return "x"
 	}
 	return fmt.Sprint(uint32(res[0]))
@@ -587,9 +587,9 @@ func (r *run) captureCheck(l *live, before string) {
 			r.captureVio("global-init", mut, d, want, have)
 		}
 	}
-	for _, x := range d.Datas {
-		if x.Off.K != 'g' || len(x.Bytes) == 0 {
-			continue
+	for xi, x := range d.Datas {
+		if x.Off.K != 'g' || len(x.Bytes) == 0 || xi != len(d.Datas)-1 {
+			continue // only the last segment: an earlier one may have been overwritten by a later one
 		}
 		want, mut, ok := cur(x.Off.V)
 		if !ok || want+uint64(len(x.Bytes)) > 65536 {
@@ -603,8 +603,8 @@ func (r *run) captureCheck(l *live, before string) {
 		}
 	}
 	for _, e := range d.Elems {
-		if e.Off.K != 'g' || len(e.Items) == 0 || e.Items[0] < 0 {
-			continue
+		if e.Off.K != 'g' || len(e.Items) == 0 || e.Items[0] < 0 || len(d.Elems) != 1 {
+			continue // a single segment only: later ones overwrite, an earlier out-of-bounds one stops initialisation
 		}
 		want, mut, ok := cur(e.Off.V)
 		if !ok {
@@ -920,7 +920,14 @@ func (r *run) step(op *Op) {
 		if op.Host {
 			acc, via = "acc_f%d", "host-api"
 		}
-		got := fmt.Sprint(uint32(r.must(l, fmt.Sprintf(acc, op.K))))
+		var got string
+		if res, err := r.callFn(l, fmt.Sprintf(acc, op.K)); err != nil {
+			got = "error: " + err.Error() // e.g. the wrong function, of another signature, was resolved
+		} else if len(res) != 1 {
+			got = fmt.Sprintf("error: %d results", len(res))
+		} else {
+			got = fmt.Sprint(uint32(res[0]))
+		}
 		r.trace = append(r.trace, desc+" -> "+got)
 		if got != want {
 			r.failed = true // later states would only echo this
@@ -935,6 +942,9 @@ func (r *run) step(op *Op) {
 		}
 	default:
 		hx.Fatal("unknown op %q", op.Kind)
+	}
+	if r.failed {
+		return
 	}
 	r.observe(desc)
 }
